@@ -74,14 +74,20 @@ FAULT_UPLOAD = Suite(
          "lines only, scratch copy) to the shims vos / vhttp / vrand in PLAN mode: every call ReadDir, ReadFile, Stat, "
          "OpenFile, File.Write, File.Close, WriteFile, Remove, MkdirAll, Post and the entropy read has an index in "
          "program order and the plan maps index -> ok | ENOENT | EACCES | ENOSPC | EIO | short write (first half of the "
-         "bytes) | for Post: transport error / 5xx / 4xx. Plans: none; every single call index of the fault-free run x "
+         "bytes) | for Post: transport error / 5xx / 4xx. The directory states include locks of dead uploaders whose "
+         "mtime is hours or days old (file ages are part of the state) and count files with a valid header whose hash "
+         "chains leave the file (grown beyond the first page and truncated; dangling link). Plans: none; every single call index of the fault-free run x "
          "kind (all five error kinds on the first two directory states, EIO and short write on the others; 4xx / 5xx at "
          "the Post indices); in thorough all five kinds everywhere, all PAIRS of call indices below 31 x {EIO, short} x {ENOSPC, short} on "
-         "the first three states, and on every other state six random plans with 2-3 faults. Observables compared with Model/UploaderFault run on the same "
+         "the first three states, and on every other state six random plans with 2-3 faults. On every state also four PERSISTENT faults (the same call "
+         "fails however often it is repeated: upload/ read-only, no Remove in upload/, no Remove at all, every write "
+         "ENOSPC), given to the model as the equivalent index plan (the indices at which the rule fired). Observables compared with Model/UploaderFault run on the same "
          "directory, plan and observed week order: number of calls made, panic raised, final listing of local/ and "
          "upload/ with content classes and report sums, requests received by the server. Oracles on the "
          "implementation's observations (PROP classes): call-bound (more than 21 n + 6 calls), hang (step budget "
-         "exceeded), panic-escaped (a panic left the exported Run), active-file-touched, deleted-without-report, "
+         "exceeded), panic-escaped (a panic left the exported Run), panic-without-fault (the exported Run recovered a panic "
+         "although the plan fails no call: C05_run_total allows a panic only after a failed entropy read; states with a "
+         "blank mode file - empty or white space only - are generated for this), active-file-touched, deleted-without-report, "
          "counts-duplicated (a file's counts in two reports or twice in one), counts-lost (a count file gone whose "
          "counts are in no completely written local report although the week had no report before). distinct = "
          "distinct case lines; none is trivial")
